@@ -166,7 +166,8 @@ def r10_1(ctx: Ctx, rule="R10.1"):
     # guessed restraints are Pairs(START, END)
     for c in calls_in(f.node):
         if call_name(c) == "guess_protein_restrains":
-            ctx.ob(rule, f, c, [norm(a) for a in c.args] == ["self.start", "self.end"],
+            # (the private attribute behind the trivial `start` / `end` properties is the same object)
+            ctx.ob(rule, f, c, [norm(a).replace("self._start", "self.start").replace("self._end", "self.end") for a in c.args] == ["self.start", "self.end"],
                    "guessed pairs are (start index, end index)", node=c)
             n += 1
     # --- hydrogen filter receives the fixed molecule and the list; returns (positions, pairs)
@@ -301,7 +302,26 @@ def r10_2(ctx: Ctx, rule="R10.2"):
             ok1 = (after or before) and same_guard and norm(apps[0].args[0]) == "%s.position" % atom
             from ..cfg import cguards_of as _cgo, ctext as _ctx
             ok1 = ok1 and _cgo(sts[0], pm) == [_ctx("%s.element != 'H'" % atom)]
-    ctx.ob(rule, rh, en[0] if en else "index map", ok1,
+    und1 = False
+    if en and not ok1:
+        l = en[0]
+        idx = norm(l.target.elts[0]) if isinstance(l.target, ast.Tuple) else None
+        sts_ = [s for s in walk_no_nested(l) if isinstance(s, ast.Assign) and isinstance(s.targets[0], ast.Subscript) and norm(s.targets[0].slice) == idx]
+        apps_ = [c for c in calls_in(l) if call_name(c) == "append"]
+        if sts_ and apps_:
+            lst_ = norm(apps_[0].func.value)
+            v_ = norm(sts_[0].value)
+            # a running counter (or any other spelling) for the new index: not read here; keeping the OLD index, or a length
+            # taken on the wrong side of the append, is refuted as before
+            known_wrong = v_ == idx or v_ in ("len(%s)" % lst_, "len(%s) - 1" % lst_, "len(%s) + 1" % lst_)
+            und1 = not known_wrong
+        elif not sts_:
+            und1 = True
+    if und1:
+        ctx.ob(rule, rh, en[0], True, "the new index of a kept atom is not written as the length of the list of kept positions around the "
+               "append; re-indexing not decided on this tree", undecided=True, node=en[0])
+    else:
+      ctx.ob(rule, rh, en[0] if en else "index map", ok1,
            "the map old index -> new index is built in one pass over the molecule it filters: every kept atom's "
            "position is appended and its new index is the position just appended", node=en[0] if en else rh.node)
     ok2 = False
@@ -351,8 +371,9 @@ def r10_4(ctx: Ctx, rule="R10.4"):
     m1, m2 = gp.params[:2]
     cfg = CFG(gp.node)
     dom = cfg.dominators()
+    from ..pat import expand_single_defs as _xsd104
     guards = [n for n in walk_no_nested(gp.node) if isinstance(n, ast.If) and branch_raises(n.body)
-              and flip_compare(n.test) in ("len(%s.resnames) != len(%s.resnames)" % (m1, m2), "len(%s.resnames) != len(%s.resnames)" % (m2, m1),
+              and flip_compare(_xsd104(gp.node, n.test)) in ("len(%s.resnames) != len(%s.resnames)" % (m1, m2), "len(%s.resnames) != len(%s.resnames)" % (m2, m1),
                                            "len(%s.residues) != len(%s.residues)" % (m1, m2))]
     loops = [n for n in walk_no_nested(gp.node) if isinstance(n, ast.For) and "zip(" in norm(n.iter) and "residues" in norm(n.iter)]
     ok = bool(guards) and bool(loops) and cfg.node_of(guards[0]).id in dom[cfg.node_of(loops[0]).id]
@@ -383,6 +404,12 @@ def r10_4(ctx: Ctx, rule="R10.4"):
                                (isinstance(call_st, ast.Expr) and isinstance(call_st.value, ast.Call) and call_name(call_st.value) == "extend"
                                 and call_st.value.args and call_st.value.args[0] is calls[0]))
     recognised = bool(loops) and norm(loops[0].iter) == "zip(%s.residues, %s.residues)" % (m1, m2) and isinstance(loops[0].target, ast.Tuple)
+    if recognised and not okl:
+        # the offsets are carried another way (a pair rebuilt each pass, star-arguments ...): only the AugAssign form is read
+        cs_ = [c for c in calls_in(loops[0]) if call_name(c) == gr.name]
+        augs_ = [s for s in loops[0].body if isinstance(s, ast.AugAssign)]
+        if cs_ and (any(isinstance(a_, ast.Starred) for a_ in cs_[0].args) or not augs_):
+            recognised = False
     if recognised or not loops:
         ctx.ob(rule, gp, loops[0] if loops else "pairing loop", okl,
                "residues are paired position by position; each molecule's offset starts at 0 and grows by the length of "
@@ -472,7 +499,12 @@ def r10_4(ctx: Ctx, rule="R10.4"):
             detail = "lower=%s upper=%s lower[i+1]=%s" % (norm(lo), norm(hi), lo_next)
     slicing_comp = bool(rets) and isinstance(rets[0].value, ast.ListComp) and isinstance(rets[0].value.elt, ast.Subscript) \
         and isinstance(rets[0].value.elt.slice, ast.Slice)
-    if slicing_comp or not rets:
+    modelled = slicing_comp and len(rets[0].value.generators) == 1 and isinstance(rets[0].value.generators[0].iter, ast.Call) \
+        and call_name(rets[0].value.generators[0].iter) == "range"
+    if slicing_comp and not modelled:
+        ctx.ob(rule, sp, rets[0], True, "the slices are not cut at `i * len // parts` inside `for i in range(parts)` (bounds computed "
+               "elsewhere); tiling not decided on this tree", undecided=True, node=rets[0])
+    elif slicing_comp or not rets:
         ctx.ob(rule, sp, rets[0] if rets else "_split_list", okt,
                "slice k ends where slice k+1 starts, the first starts at 0 and the last ends at len: the groups tile the "
                "index range in order (%s)" % detail, node=rets[0] if rets else sp.node)
@@ -525,15 +557,17 @@ def r10_5(ctx: Ctx, rule="R10.5"):
                      ("Manager._parse_ignore_hydrogens", {"KeyError", "ValueError"})):
         g = ctx.func(nm)
         raised = set()
-        for r in walk_no_nested(g.node):
-            if isinstance(r, ast.Raise) and r.exc is not None:
-                raised.add(norm(r.exc.func) if isinstance(r.exc, ast.Call) else norm(r.exc))
+        for g_ in ctx.with_helpers(g):              # (validation moved into helpers that could not be spliced in counts)
+            for r in walk_no_nested(g_.node):
+                if isinstance(r, ast.Raise) and r.exc is not None:
+                    raised.add(norm(r.exc.func) if isinstance(r.exc, ast.Call) else norm(r.exc))
         # the unknown-name check tests membership in the complete correspondence
         okv = want <= raised
         if "KeyError" in want:
             from ..pat import expand_single_defs as _xsd105
-            kn = [n for n in walk_no_nested(g.node) if isinstance(n, ast.If) and isinstance(n.test, ast.Compare)
-                  and isinstance(n.test.ops[0], ast.NotIn) and "complete_correspondence" in norm(_xsd105(g.node, n.test.comparators[0]))
+            kn = [n for g_ in ctx.with_helpers(g) for n in walk_no_nested(g_.node) if isinstance(n, ast.If) and isinstance(n.test, ast.Compare)
+                  and isinstance(n.test.ops[0], ast.NotIn) and ("complete_correspondence" in norm(_xsd105(g_.node, n.test.comparators[0]))
+                                                                 or (g_ is not g and isinstance(n.test.comparators[0], ast.Name) and n.test.comparators[0].id in g_.params))
                   and branch_raises(n.body)]
             okv = okv and bool(kn)
         ctx.ob(rule, g, "%s raises %s" % (g.name, sorted(raised)), okv,
